@@ -82,11 +82,27 @@ def roundtrip(gi: int, pw: list, a: int, pa: bool, b: int, pb: bool, d: int, pd:
     o = _opts(a, pa, b, pb, d, pd, x, px)
     with untraced():
         defs.reset_caches()
+    if gi == 1 and where == 0:
+        # memoized values travel with the pickle: what the original has stored, the copy returns too
+        _WARM[0] += 1
+        alias = "warm-%d" % _WARM[0]          # a string: can never equal the symbolic int dispatch value of another path
+        ow = {"A": 1, "B": 2, "D": alias}                   # concrete: the stored entry must be picklable as it is
+        with quiet(), untraced():
+            stored = outcome(lambda: G(ow))                  # unregistered alias: the default implementation, now stored
+            G.register(alias, Value("registered-after-the-evaluation"))
+            C2 = pickle.loads(pickle.dumps(G, proto))
+            orig, copy = outcome(lambda: G(ow)), outcome(lambda: C2(ow))
+        if not _same_outcome(orig, copy):
+            note("warm original", orig, "copy", copy, "first evaluation", stored)
+            return 0
+    with untraced():
+        defs.reset_caches()
     if gi == 7 and where == 1:
         return 1                          # a run-once implementation pickled cold elsewhere has nothing memoized to compare
     if gi == 7 and where == 0:
-        with quiet():
-            outcome(lambda: G(o))          # warm: what the original has memoized travels with the pickle
+        with quiet(), untraced():
+            warm = {"A": 5}
+            first_ticket = outcome(lambda: G(warm))          # warm (concrete options): the memoized ticket travels with the pickle
     with untraced():
         try:
             blob = pickle.dumps(G, proto) if where == 0 else _pickled_elsewhere(gi, proto)
@@ -94,6 +110,11 @@ def roundtrip(gi: int, pw: list, a: int, pa: bool, b: int, pb: bool, d: int, pd:
         except Exception as e:
             note("pickling failed", defs.NAMES[gi], proto, type(e).__name__, str(e)[:200])
             return 0
+    if gi == 7:
+        with quiet(), untraced():
+            t1, t2 = outcome(lambda: G(warm)), outcome(lambda: C(warm))
+        note("run-once dataset: original", t1, "copy", t2, "memoized before pickling", first_ticket)
+        return 2 if (_same_outcome(t1, t2) and _same_outcome(t1, first_ticket)) else 0
     with quiet():
         r1, r2 = outcome(lambda: G(o)), outcome(lambda: C(o))
         k1, k2 = outcome(lambda: sorted(G.keys(o))), outcome(lambda: sorted(C.keys(o)))
@@ -107,21 +128,6 @@ def roundtrip(gi: int, pw: list, a: int, pa: bool, b: int, pb: bool, d: int, pd:
         want = ("ok", ("base", a, b if pb else 1)) if pa else None
         if (want is None and by[0] == "ok") or (want is not None and not _same_outcome(by, want)):
             note("unpickling disturbed a live dataset: plain ->", by, "expected", want)
-            return 0
-    if gi == 1 and where == 0:
-        # memoized values travel with the pickle: what the original has stored, the copy returns too
-        _WARM[0] += 1
-        alias = "warm-%d" % _WARM[0]          # a string: can never equal the symbolic int dispatch value of another path
-        ow = dict(o)
-        ow["D"] = alias
-        with quiet():
-            stored = outcome(lambda: G(ow))                  # unregistered alias: the default implementation, now stored
-            G.register(alias, Value("registered-after-the-evaluation"))
-            with untraced():
-                C2 = pickle.loads(pickle.dumps(G, proto))
-            orig, copy = outcome(lambda: G(ow)), outcome(lambda: C2(ow))
-        if not _same_outcome(orig, copy):
-            note("warm original", orig, "copy", copy, "first evaluation", stored)
             return 0
     if gi == 1 and where == 0 and proto in (2, 5):
         with untraced():
